@@ -19,12 +19,20 @@ inductive Act where
   | umount (t : Bytes)
   | failIfCached (t : Bytes)    -- refuse (errorIfBusy: overlain) when the cache shows a mount at t
   | doneIfCached (ts : List Bytes) -- chroot: nothing left to do when the cache shows all of ts mounted
+  | probe0                      -- ProbeAllLayerstate: read the table; every layer's mount LIST is taken from this reading
+  | allLayer (pre : Bytes) (kids : List Bytes)
+      -- one layer of `umount -all`: skipped as busy when the latest reading shows an overlay of a
+      -- child on it; not mounted (nothing to do) when the FIRST reading shows nothing at/below
+      -- pre; otherwise those mounts are unmounted, deepest first, and the table is read again
+  | failIfBusy                  -- end of `umount -all`: failure when a layer was skipped as busy
   deriving Repr, DecidableEq, BEq
 
 structure Proc where
   cache : List Bytes := []
   pending : List Act := []
   failed : Bool := false
+  snap : List Bytes := []       -- the table as first read (probe0): layer.Mounts of every layer
+  busy : Bool := false          -- umount -all: some layer was skipped as busy
   deriving Repr, DecidableEq, BEq
 
 def atOrBelow (pre p : Bytes) : Bool := p == pre || hasPrefix p (pre ++ [47])
@@ -56,6 +64,16 @@ def turn : Nat → Proc → List Bytes → Proc × List Bytes
     | .doneIfCached ts :: rest =>
       if ts.all p.cache.contains then ({ p with pending := [] }, k)
       else turn fuel { p with pending := rest } k
+    | .probe0 :: rest => ({ p with cache := k, snap := k, pending := rest }, k)
+    | .allLayer pre kids :: rest =>
+      if kids.any p.cache.contains then turn fuel { p with pending := rest, busy := true } k
+      else
+        let ts := (sortBy bytesLt (p.snap.filter (atOrBelow pre))).reverse
+        if ts.isEmpty then turn fuel { p with pending := rest } k
+        else turn fuel { p with pending := ts.map Act.umount ++ [.probe] ++ rest } k
+    | .failIfBusy :: rest =>
+      if p.busy then ({ p with pending := [], failed := true }, k)
+      else turn fuel { p with pending := rest } k
     | .umount t :: rest =>
       if hasChildMount t k then ({ p with pending := [], failed := true }, k)
       else match removeLast t k with
@@ -68,7 +86,7 @@ structure St where
   p1 : Proc
   deriving Repr, DecidableEq, BEq
 
-def fuelOf (s : St) : Nat := 2 * (s.kernel.length + s.p0.pending.length + s.p1.pending.length + s.p0.cache.length + s.p1.cache.length) + 8
+def fuelOf (s : St) : Nat := 2 * (s.kernel.length + s.p0.pending.length + s.p1.pending.length + s.p0.cache.length + s.p1.cache.length + s.p0.snap.length + s.p1.snap.length) + 8
 
 def step (s : St) (who : Bool) : St :=
   if who then
@@ -122,6 +140,11 @@ def chrootChainActs (layers : List (List Bytes)) : List Act :=
 /-- umount of a layer whose children's build roots are `kids` -/
 def umountLayerActs (pre : Bytes) (kids : List Bytes) : List Act :=
   [.probe] ++ kids.map .failIfCached ++ [.planUmount pre, .probe]
+
+/-- `umount -all`: the layers in reverse normalized order, each with its build root and the
+    build roots of its direct children -/
+def umountAllActs (layers : List (Bytes × List Bytes)) : List Act :=
+  [.probe0] ++ layers.map (fun l => .allLayer l.1 l.2) ++ [.failIfBusy]
 
 /-- run one process alone to completion -/
 def solo (k : List Bytes) (a : List Act) : St :=
